@@ -6,7 +6,7 @@
    resolver tables [e]; [find_proxy] is NewProxyResolver's entry-point rule followed by FindProxyForURL
    (script, then the checks on the result); [parse_proxy], [proxies_first], [proxy_url] are pac/proxy.go. *)
 From Coq Require Import Permutation.
-From G14 Require Import Model Spec Check ProofsBasic ProofsPool ProofsParse ProofsGlob ProofsNet ProofsAll ProofsCidr ProofsSort PinnedExpected Obligations.
+From G14 Require Import Model Spec Check ProofsBasic ProofsPool ProofsParse ProofsGlob ProofsNet ProofsAll ProofsCidr ProofsSort ProofsEval PinnedExpected Obligations.
 Open Scope N_scope.
 
 (* shExpMatch is shell-expression (glob) matching: for every pattern made of literals, '.', '*', '?' and
@@ -194,6 +194,28 @@ Theorem T14_pool_exclusive : forall ls s,
   (forall c v, In (c, v) (held s) -> ~ In v (free s)).
 Proof. exact pool_exclusive. Qed.
 Print Assumptions T14_pool_exclusive.
+
+(* Evaluations issued concurrently through the pool give the same answers as if issued one at a time: for every script
+   whose result is a function [f] of the arguments, any number of callers and EVERY interleaving of their steps
+   (get a resolver / load the arguments into it / run / put it back; the runtime may drop pooled resolvers), each answer
+   handed out is f of that caller's own arguments — in the order of steps the source has (put after the evaluation). *)
+Theorem T14_pool_answers_sequential : forall (f : nat -> nat) ls s,
+  xsteps f pool_put_after_eval xinit ls = Some s ->
+  forall c a r, In (c, a, r) (xanswers s) -> r = f a.
+Proof. exact (fun f => eq_ind_r (fun bl => forall ls s, xsteps f bl xinit ls = Some s -> forall c a r, In (c, a, r) (xanswers s) -> r = f a)
+                               (pool_answers_sequential f) ob_pool_put_after_eval). Qed.
+Print Assumptions T14_pool_answers_sequential.
+
+(* ... and false for the other order (resolver put back before it is used): a caller receives another caller's answer *)
+Theorem T14_pool_put_before_use_refuted :
+  exists ls s, xsteps (fun x => x) false xinit ls = Some s /\ In (1, 7, 9)%nat (xanswers s).
+Proof. exact (ex_intro _ early_put_trace early_put_wrong_answer). Qed.
+Print Assumptions T14_pool_put_before_use_refuted.
+
+Example T14_pool_example :
+  exists s, xsteps (fun x => x * 2)%nat true xinit example_trace = Some s /\
+            xanswers s = [(3, 5, 10); (2, 9, 18); (1, 7, 14)]%nat.
+Proof. exact pool_example. Qed.
 
 (* The helper bodies and Go functions the model transcribes are the ones that were read
    (everything not parameterised through Tables.v is pinned as text). *)
